@@ -132,15 +132,7 @@ Definition region_lines (t : list seg) : list (list seg) := removelast (tpl_line
 Definition render_lines (env : list (string * string)) (t : list seg) : list string :=
   map (render env) (region_lines t).
 
-(** *** region: the within-word matcher [_<cmd>_subword] *)
 Definition seg_nl : list seg := [Text nl].
-
-Definition R_sub (nc ns : bool) : list seg :=
-  write_subword_fn_0 ++ seg_nl
-  ++ (if nc then write_subword_fn_1 else []) ++ (if ns then write_subword_fn_2 else [])
-  ++ write_subword_fn_3 ++ write_subword_fn_4 ++ write_subword_fn_5
-  ++ (if nc then write_subword_fn_6 ++ seg_nl else [])
-  ++ write_subword_fn_7 ++ write_subword_fn_8 ++ seg_nl ++ seg_nl.
 
 Lemma render_app env a b : render env (a ++ b) = append (render env a) (render env b).
 Proof.
@@ -149,14 +141,6 @@ Qed.
 
 Definition env_cmd (command : string) : list (string * string) :=
   [("command", command); ("MATCH_FN_NAME", match_fn_name_bash)].
-
-Lemma write_subword_fn_region command nc ns :
-  write_subword_fn command nc ns = render (env_cmd command) (R_sub nc ns).
-Proof.
-  unfold write_subword_fn, R_sub, fmtln, fmt, env_cmd, seg_nl. cbn [sconcat].
-  destruct nc, ns; rewrite !render_app; cbn [render]; rewrite ?QuoteRT.append_nil_r, ?append_assoc; reflexivity.
-Qed.
-
 
 (** *** the generic decomposition of a rendered template into its lines *)
 Definition jnl (l : list string) : string := join nl l.
@@ -238,6 +222,367 @@ Proof.
   rewrite join_app_ne. cbn [join]. rewrite QuoteRT.append_nil_r. reflexivity.
 Qed.
 
-Lemma R_sub_lines command nc ns :
-  render (env_cmd command) (R_sub nc ns) = unlines (render_lines (env_cmd command) (R_sub nc ns)).
-Proof. apply render_region. destruct nc, ns; vm_compute; reflexivity. Qed.
+(** ** discharging the lines of a region *)
+Definition seg_no_nl (env : list (string * string)) (l : list seg) : bool :=
+  forallb (fun s => match s with
+                    | Text t => no_nl t
+                    | Hole n => match assoc n env with Some v => no_nl v | None => false end
+                    end) l.
+
+Lemma render_no_nl env l : seg_no_nl env l = true -> no_nl (render env l) = true.
+Proof.
+  induction l as [|[t|n] l IH]; cbn [seg_no_nl forallb render]; intros H; [reflexivity | |];
+    apply andb_prop in H; destruct H as [H1 H2]; rewrite no_nl_app, (IH H2), andb_true_r.
+  - exact H1.
+  - destruct (assoc n env); [exact H1 | discriminate].
+Qed.
+
+Definition is_deep (l : list seg) : bool :=
+  match l with Text t :: _ => is_prefix "     " t | _ => false end.
+
+Lemma is_prefix_split p s : is_prefix p s = true -> exists r, s = append p r.
+Proof.
+  revert s. induction p as [|c p IH]; intros s H; [exists s; reflexivity|].
+  destruct s as [|d s]; [discriminate|]. cbn in H. destruct (Ascii.eqb_spec c d); [|discriminate]. subst.
+  destruct (IH _ H) as [r ->]. exists r. reflexivity.
+Qed.
+
+Lemma deep_render_sem cmd env l :
+  is_deep l = true -> seg_no_nl env l = true -> line_sem cmd (render env l) None.
+Proof.
+  intros Hd Hn. split; [apply render_no_nl; exact Hn|]. split; [|exact I]. intros rest.
+  destruct l as [|[t|n] l]; try discriminate. cbn [is_deep] in Hd. destruct (is_prefix_split _ _ Hd) as [r ->].
+  cbn [render]. rewrite !append_assoc. apply deep_none.
+Qed.
+
+(** a line without holes: what the reader makes of it is computed *)
+Definition is_closed (l : list seg) : bool := forallb (fun s => match s with Text _ => true | Hole _ => false end) l.
+
+Lemma closed_render env l : is_closed l = true -> render env l = render [] l.
+Proof.
+  induction l as [|[t|n] l IH]; cbn [is_closed forallb render]; intros H; [reflexivity | | discriminate].
+  rewrite (IH H). reflexivity.
+Qed.
+
+Definition closed_outcome (s : string) : option stmt :=
+  match bash_stmt (append s nl) with Some (st, _) => Some st | None => None end.
+
+Lemma closed_render_sem cmd env l :
+  is_closed l = true -> no_nl (render [] l) = true ->
+  (forall rest, bash_stmt (append (render [] l) (append nl rest))
+                = match closed_outcome (render [] l) with Some st => Some (st, rest) | None => None end) ->
+  match closed_outcome (render [] l) with Some (SFunc _) => False | _ => True end ->
+  line_sem cmd (render env l) (closed_outcome (render [] l)).
+Proof.
+  intros Hc Hn Hrd Hf. rewrite (closed_render env l Hc). split; [exact Hn|]. split; [exact Hrd|].
+  destruct (closed_outcome (render [] l)) as [[]|]; try exact I. destruct Hf.
+Qed.
+
+Ltac closed_line :=
+  apply closed_render_sem; [reflexivity | vm_compute; reflexivity | intro; vm_compute; reflexivity | vm_compute; exact I].
+
+(** lines that carry the command name at statement indentation *)
+Lemma is_cmd_fn_suffix cmd suf :
+  strip "_cmd_" suf = None -> is_cmd_fn cmd (append "_" (append cmd suf)) = false.
+Proof.
+  intros H. unfold is_cmd_fn. rewrite <- (append_assoc "_" cmd "_cmd_"), <- (append_assoc "_" cmd suf).
+  rewrite strip_app_both, H. reflexivity.
+Qed.
+
+Lemma header_sem cmd suf :
+  name_ok cmd -> forallb is_name_char (list_ascii_of_string suf) = true -> no_nl suf = true ->
+  strip "_cmd_" suf = None ->
+  line_sem cmd (append "_" (append cmd (append suf " () {"))) (Some (SFunc (append "_" (append cmd suf)))).
+Proof.
+  intros Hc Hsuf Hnl Hs. split; [|split].
+  - cbn [append no_nl]. rewrite !no_nl_app, (name_ok_no_nl _ Hc), Hnl. reflexivity.
+  - intros rest. unfold bash_stmt, bz_stmt. rewrite !append_assoc.
+    rewrite alt_skip by reflexivity. rewrite alt_skip by reflexivity. rewrite alt_skip by reflexivity.
+    rewrite alt_skip by reflexivity. rewrite alt_skip by reflexivity.
+    apply alt_take. erewrite pbind_lit' by reflexivity.
+    assert (N1 : name (cmd ++ suf ++ " () {" ++ nl ++ rest)%string = Some (append cmd suf, (" () {" ++ nl ++ rest)%string)).
+    { unfold name. rewrite <- append_assoc.
+      assert (T : forallb is_name_char (list_ascii_of_string (cmd ++ suf)) = true).
+      { destruct Hc as [_ Hc]. clear -Hc Hsuf. induction cmd as [|c t IH]; cbn; [exact Hsuf|].
+        cbn in Hc. apply andb_prop in Hc. destruct Hc as [H1 H2]. rewrite H1, (IH H2). reflexivity. }
+      change (" () {" ++ nl ++ rest)%string with (String " " ("() {" ++ nl ++ rest))%string.
+      rewrite (take_name_app _ " "%char _ T eq_refl).
+      destruct Hc as [Hne _]. destruct cmd; [congruence | reflexivity]. }
+    rewrite (pbind_some _ _ _ _ _ N1). erewrite pbind_lit' by reflexivity.
+    rewrite (pbind_some _ _ _ _ _ (eol_nl rest)). reflexivity.
+  - apply is_cmd_fn_suffix. exact Hs.
+Qed.
+
+(** ** units: maximal pieces of the skeleton that begin and end at line boundaries *)
+Lemma no_nl_uint d : no_nl (NilEmpty.string_of_uint d) = true.
+Proof. induction d; cbn; auto. Qed.
+
+Lemma no_nl_sN n : no_nl (sN n) = true.
+Proof.
+  Transparent sN. unfold sN. destruct (N.to_uint n); try apply no_nl_uint. reflexivity. Opaque sN.
+Qed.
+
+Ltac deep_line Hnl :=
+  apply deep_render_sem;
+  [ reflexivity
+  | unfold seg_no_nl, env_cmd; cbn [forallb assoc String.eqb Ascii.eqb Bool.eqb]; rewrite ?Hnl, ?no_nl_sN; reflexivity ].
+
+Ltac region_list R :=
+  let L := eval vm_compute in (region_lines R) in change (region_lines R) with L.
+
+(** a unit is scanned: its lines are closed or deep, apart from the ones given first *)
+Definition unit_scans_env (command : string) (env : list (string * string)) (u : list seg) (sts : list stmt) : Prop :=
+  forall k rest,
+    scan (List.length (region_lines u) + k) Bash command (append (render env u) rest)
+    = sts ++ scan k Bash command rest.
+
+Definition unit_scans (command : string) (u : list seg) (sts : list stmt) : Prop :=
+  unit_scans_env command (env_cmd command) u sts.
+
+Ltac unit_tac cmd Hc Hnl first_lines :=
+  unfold unit_scans; intros k rest;
+  rewrite render_region by (vm_compute; reflexivity);
+  match goal with |- context [render_lines ?E ?R] =>
+    replace (List.length (region_lines R)) with (List.length (render_lines E R)) by apply map_length
+  end;
+  erewrite scan_lines_sem;
+  [ | unfold render_lines;
+      match goal with |- context [region_lines ?R] => region_list R end;
+      cbn [map];
+      first_lines;
+      repeat (eapply Forall2_cons; [first [closed_line | deep_line Hnl]|]);
+      apply Forall2_nil ];
+  match goal with |- _ = _ ++ ?T => generalize T; intro end;
+  vm_compute; reflexivity.
+
+Section Units.
+Variable command : string.
+Hypothesis Hc : name_ok command.
+Let Hnl := name_ok_no_nl _ Hc.
+
+(** the template without its leading newline *)
+Definition drop_nl (t : list seg) : list seg :=
+  match t with
+  | Text (String c s) :: r => if Ascii.eqb c nl_char then txt s ++ r else t
+  | _ => t
+  end.
+
+Definition U_sub0 := write_subword_fn_0 ++ seg_nl.
+Definition U_sub6 := write_subword_fn_6 ++ seg_nl.
+Definition U_sub78 := write_subword_fn_7 ++ write_subword_fn_8 ++ seg_nl ++ seg_nl.
+
+Lemma U_sub0_scans :
+  unit_scans command U_sub0
+    [SFunc (append "_" (append command "_subword")); SScalar "subword_state" 0; SScalar "char_index" 0; SScalar "matched" 0].
+Proof.
+  unit_tac command Hc Hnl ltac:(eapply Forall2_cons; [apply (header_sem command "_subword" Hc); reflexivity|]).
+Qed.
+
+Lemma U_sub1_scans : unit_scans command write_subword_fn_1 [].
+Proof. unit_tac command Hc Hnl idtac. Qed.
+Lemma U_sub2_scans : unit_scans command write_subword_fn_2 [].
+Proof. unit_tac command Hc Hnl idtac. Qed.
+Lemma U_sub3_scans : unit_scans command write_subword_fn_3 [].
+Proof. unit_tac command Hc Hnl idtac. Qed.
+Lemma U_sub4_scans : unit_scans command write_subword_fn_4 [].
+Proof. unit_tac command Hc Hnl idtac. Qed.
+Lemma U_sub5_scans : unit_scans command write_subword_fn_5 [SLits "subword_candidates" []; SLits "subword_matches" []].
+Proof. unit_tac command Hc Hnl idtac. Qed.
+Lemma U_sub6_scans : unit_scans command U_sub6 [].
+Proof. unit_tac command Hc Hnl idtac. Qed.
+Lemma U_sub78_scans : unit_scans command U_sub78 [SEnd].
+Proof. unit_tac command Hc Hnl idtac. Qed.
+End Units.
+
+(** ** the remaining lines that carry variable text at statement indentation *)
+Ltac nonl H1 H2 :=
+  repeat (progress (cbn [append no_nl]; rewrite ?no_nl_app, ?H1, ?H2, ?no_nl_sN)); reflexivity.
+
+Lemma name_chars_app a b :
+  forallb is_name_char (list_ascii_of_string a) = true -> forallb is_name_char (list_ascii_of_string b) = true ->
+  forallb is_name_char (list_ascii_of_string (append a b)) = true.
+Proof. intros Ha Hb. induction a as [|c t IH]; cbn in *; [exact Hb|]. apply andb_prop in Ha. destruct Ha as [H1 H2]. rewrite H1, (IH H2). reflexivity. Qed.
+
+Lemma name_chars_uint d : forallb is_name_char (list_ascii_of_string (NilEmpty.string_of_uint d)) = true.
+Proof. induction d; cbn; auto. Qed.
+
+Lemma name_chars_sN n : forallb is_name_char (list_ascii_of_string (sN n)) = true.
+Proof. Transparent sN. unfold sN. destruct (N.to_uint n); try apply name_chars_uint. reflexivity. Opaque sN. Qed.
+
+Lemma name_read (v : string) c r :
+  v <> EmptyString -> forallb is_name_char (list_ascii_of_string v) = true -> is_name_char c = false ->
+  name (append v (String c r)) = Some (v, String c r).
+Proof.
+  intros Hne Hv Hc. unfold name. rewrite (take_name_app _ _ _ Hv Hc). destruct v; [congruence | reflexivity].
+Qed.
+
+(** [    local VAR=N] as it comes out of a template: the hole value is followed by the empty rest of the line *)
+Lemma scalar_sem cmd var n :
+  var = "max_fallback_level" \/ var = "state" ->
+  line_sem cmd (append "    local " (append var (append "=" (append (sN n) EmptyString)))) (Some (SScalar var n)).
+Proof.
+  intros Hvar. rewrite QuoteRT.append_nil_r. split; [|split; [|exact I]].
+  - destruct Hvar as [-> | ->]; nonl no_nl_sN no_nl_sN.
+  - intros rest. pose proof (bash_scalar_stmt var n rest Hvar) as H. unfold scalar_line in H.
+    rewrite !append_assoc in H. rewrite !append_assoc. exact H.
+Qed.
+
+(** complete -o nospace -F _<cmd> <cmd> *)
+Lemma register_sem cmd :
+  name_ok cmd ->
+  line_sem cmd (append "complete -o nospace -F _" (append cmd (append " " (append cmd EmptyString))))
+           (Some (SRegister [append "_" cmd; cmd])).
+Proof.
+  intros [Hne Hc]. pose proof (name_ok_no_nl cmd (conj Hne Hc)) as Hnl. rewrite QuoteRT.append_nil_r.
+  split; [|split; [|exact I]].
+  - nonl Hnl Hnl.
+  - intros rest. unfold bash_stmt, bz_stmt. rewrite !append_assoc.
+    do 7 (rewrite alt_skip by reflexivity). apply alt_take.
+    change ("complete -o nospace -F _" ++ cmd ++ " " ++ cmd ++ nl ++ rest)%string
+      with ("complete -o nospace -F " ++ ("_" ++ cmd) ++ String " " (cmd ++ nl ++ rest))%string.
+    rewrite pbind_lit.
+    assert (H1 : forallb is_name_char (list_ascii_of_string ("_" ++ cmd)%string) = true) by (cbn; exact Hc).
+    rewrite (pbind_some _ _ _ _ _ (name_read ("_" ++ cmd)%string " "%char _ ltac:(discriminate) H1 eq_refl)).
+    erewrite pbind_lit' by reflexivity.
+    change (cmd ++ nl ++ rest)%string with (cmd ++ String nl_char rest)%string.
+    rewrite (pbind_some _ _ _ _ _ (name_read cmd nl_char _ Hne Hc eq_refl)).
+    change (String nl_char rest) with (nl ++ rest)%string.
+    rewrite (pbind_some _ _ _ _ _ (eol_nl rest)). reflexivity.
+Qed.
+
+(** [    _<cmd><suffix> "$1" "$2"]: the call that ends a wrapper *)
+Lemma call_sem cmd suf :
+  name_ok cmd -> forallb is_name_char (list_ascii_of_string suf) = true -> no_nl suf = true ->
+  line_sem cmd (append "    _" (append cmd (append suf (append " ""$1"" ""$2""" EmptyString))))
+           (Some (SCall (append "_" (append cmd suf)))).
+Proof.
+  intros [Hne Hc] Hsuf Hsnl. pose proof (name_ok_no_nl cmd (conj Hne Hc)) as Hnl. rewrite QuoteRT.append_nil_r.
+  assert (Hv : forallb is_name_char (list_ascii_of_string (cmd ++ suf)%string) = true) by (apply name_chars_app; assumption).
+  assert (Hvne : (cmd ++ suf)%string <> EmptyString) by (destruct cmd; [congruence | discriminate]).
+  split; [|split; [|exact I]].
+  - nonl Hnl Hsnl.
+  - intros rest. unfold bash_stmt, bz_stmt. rewrite !append_assoc.
+    set (R := ("""$1"" ""$2""" ++ nl ++ rest)%string).
+    assert (E4 : ("    _" ++ cmd ++ suf ++ " ""$1"" ""$2""" ++ nl ++ rest)%string
+                 = ("    " ++ ("_" ++ cmd ++ suf) ++ String " " R)%string)
+      by (unfold R; rewrite !append_assoc; reflexivity).
+    assert (E5 : ("    _" ++ cmd ++ suf ++ " ""$1"" ""$2""" ++ nl ++ rest)%string
+                 = ("    _" ++ (cmd ++ suf) ++ String " " R)%string)
+      by (unfold R; rewrite !append_assoc; reflexivity).
+    do 3 (rewrite alt_skip by reflexivity).
+    (* X[s]=... : the name is followed by a blank, not by [ *)
+    rewrite alt_skip.
+    2:{ rewrite E4. rewrite pbind_lit.
+        assert (H1 : forallb is_name_char (list_ascii_of_string ("_" ++ cmd ++ suf)%string) = true) by (cbn; exact Hv).
+        rewrite (pbind_some _ _ _ _ _ (name_read ("_" ++ cmd ++ suf)%string " "%char _ ltac:(discriminate) H1 eq_refl)).
+        reflexivity. }
+    apply alt_take. rewrite E5. rewrite pbind_lit.
+    rewrite (pbind_some _ _ _ _ _ (name_read (cmd ++ suf)%string " "%char _ Hvne Hv eq_refl)).
+    erewrite pbind_lit' by reflexivity. unfold R. cbv beta.
+    match goal with |- context [line ?X] =>
+      replace (line X) with ("$1"" ""$2""", rest) by (symmetry; apply (line_app "$1"" ""$2""" rest eq_refl))
+    end.
+    try rewrite append_assoc. reflexivity.
+Qed.
+
+(** the first line of the script *)
+Lemma hash_sem cmd x : no_nl x = true -> line_sem cmd (append "# " x) None.
+Proof. intros H. split; [exact H|]. split; [|exact I]. intros rest. reflexivity. Qed.
+
+Lemma header_main_sem cmd :
+  name_ok cmd -> line_sem cmd (append "_" (append cmd " () {")) (Some (SFunc (append "_" cmd))).
+Proof.
+  intros Hc. pose proof (header_sem cmd EmptyString Hc eq_refl eq_refl eq_refl) as H.
+  cbn [append] in H. rewrite QuoteRT.append_nil_r in H. exact H.
+Qed.
+
+(** ** the units of the completion function [_<cmd>] *)
+Section MainUnits.
+Variable command : string.
+Hypothesis Hc : name_ok command.
+Let Hnl := name_ok_no_nl _ Hc.
+
+Definition U_head := write_completion_script_0.
+Definition U_main_a := write_completion_script_2 ++ write_completion_script_3 ++ seg_nl.
+Definition U_main13 := write_completion_script_13 ++ seg_nl.
+Definition U_main14 := drop_nl write_completion_script_14 ++ seg_nl.
+Definition U_main15 := drop_nl write_completion_script_15 ++ seg_nl.
+Definition U_main16 := drop_nl write_completion_script_16.
+Definition U_main17 := write_completion_script_17.
+
+Lemma U_head_scans : unit_scans command U_head [].
+Proof. unit_tac command Hc Hnl idtac. Qed.
+
+Lemma U_main_a_scans : unit_scans command U_main_a [SFunc (append "_" command)].
+Proof.
+  unit_tac command Hc Hnl ltac:(eapply Forall2_cons; [apply (header_main_sem command Hc)|]).
+Qed.
+
+Definition env_state (start : N) : list (string * string) := ("starting_state", sN start) :: env_cmd command.
+
+Lemma U_main6_scans start :
+  unit_scans_env command (env_state start) write_completion_script_6 [SScalar "state" start; SScalar "word_index" 1].
+Proof.
+  unit_tac command Hc Hnl
+    ltac:(eapply Forall2_cons; [closed_line|];
+          eapply Forall2_cons; [apply (scalar_sem command "state" start); auto|]).
+Qed.
+
+Lemma U_main7_scans : unit_scans command write_completion_script_7 [].
+Proof. unit_tac command Hc Hnl idtac. Qed.
+Lemma U_main8_scans : unit_scans command write_completion_script_8 [].
+Proof. unit_tac command Hc Hnl idtac. Qed.
+Lemma U_main9_scans : unit_scans command write_completion_script_9 [].
+Proof. unit_tac command Hc Hnl idtac. Qed.
+Lemma U_main10_scans : unit_scans command write_completion_script_10 [].
+Proof. unit_tac command Hc Hnl idtac. Qed.
+
+Definition env_max (m : N) : list (string * string) := ("max_fallback_level", sN m) :: env_cmd command.
+
+Ltac unit_open :=
+  unfold unit_scans, unit_scans_env; intros k rest;
+  rewrite render_region by (vm_compute; reflexivity);
+  match goal with |- context [render_lines ?E ?R] =>
+    replace (List.length (region_lines R)) with (List.length (render_lines E R)) by apply map_length
+  end.
+Ltac unit_lines :=
+  unfold render_lines;
+  match goal with |- context [region_lines ?R] => region_list R end;
+  cbn [map].
+Ltac unit_close :=
+  match goal with |- _ = _ ++ ?T => generalize T; intro end; vm_compute; reflexivity.
+
+Lemma U_main13_scans m :
+  unit_scans_env command (env_max m) U_main13
+    [SLits "candidates" []; SLits "matches" []; SScalar "max_fallback_level" m].
+Proof.
+  unit_open. erewrite scan_lines_sem.
+  2:{ unit_lines.
+      repeat (eapply Forall2_cons; [first [closed_line | deep_line Hnl]|]).
+      eapply Forall2_cons.
+      { unfold env_max; cbn [render assoc String.eqb Ascii.eqb Bool.eqb env_cmd].
+        apply (scalar_sem command "max_fallback_level" m); auto. }
+      repeat (eapply Forall2_cons; [first [closed_line | deep_line Hnl]|]).
+      apply Forall2_nil. }
+  unit_close.
+Qed.
+
+Lemma U_main17_scans :
+  unit_scans command U_main17 [SEnd; SRegister [append "_" command; command]].
+Proof.
+  unit_open. erewrite scan_lines_sem.
+  2:{ unit_lines.
+      repeat (eapply Forall2_cons; [first [closed_line | deep_line Hnl]|]).
+      eapply Forall2_cons.
+      { cbn [render assoc String.eqb Ascii.eqb Bool.eqb env_cmd]. apply (register_sem command Hc). }
+      apply Forall2_nil. }
+  unit_close.
+Qed.
+
+Lemma U_main14_scans : unit_scans command U_main14 [].
+Proof. unit_tac command Hc Hnl idtac. Qed.
+Lemma U_main15_scans : unit_scans command U_main15 [].
+Proof. unit_tac command Hc Hnl idtac. Qed.
+Lemma U_main16_scans : unit_scans command U_main16 [].
+Proof. unit_tac command Hc Hnl idtac. Qed.
+End MainUnits.
